@@ -690,6 +690,22 @@ class Typer:
             return ("set", elem(t)) if t is not None and t != TOP else TOP
         if fn in ("OrderedDict", "dict") and not e.args and not e.keywords:
             return ("dict", None, None)
+        if fn in ("chain", "itertools.chain") and e.args:
+            t = None
+            for a in e.args:
+                ta = self.type_of(a, env)
+                if ta is None or ta == TOP or ta[0] not in ("list", "set", "iter", "dict", "opview"):
+                    return TOP
+                t = join(t, elem(ta))
+            return ("iter", t)
+        if fn in ("map",) and len(e.args) == 2 and isinstance(e.args[0], ast.Lambda) and len(e.args[0].args.args) == 1:
+            # map(lambda x: <expr>, seq): type of <expr> with x bound to the element type
+            ta = self.type_of(e.args[1], env)
+            if ta is None or ta == TOP:
+                return TOP
+            env2 = env.copy()
+            env2[e.args[0].args.args[0].arg] = elem(ta)
+            return ("iter", self.type_of(e.args[0].body, env2))
         if fn == "zip":
             return ("iter", ("tuple", tuple(elem(self.type_of(a, env)) for a in e.args)))
         if fn == "enumerate" and e.args:
